@@ -42,6 +42,8 @@ def gen_loop_program(rr):
         prog['outside'].append({'name': 'out%d' % i, 'target': rr.choice(targets), 'method': kind})
     nrel = rr.choice([0, 0, 1, 2, 3])
     prog['reloads'] = sorted(rr.sample(range(0, prog['k'] + 1), min(nrel, prog['k'] + 1)))
+    # the replica count of a replicated body may come from a variable of the import stage's scope
+    prog['repl_via_stage_var'] = template == 'replicated' and rr.random() < 0.4
     # a second platform with blueprints at every level (the loop is then created and reloaded on that platform)
     prog['platform_bp'] = rr.random() < 0.3
     # the producer of the loop's input may be replicated (the first body component then aggregates its replicas)
@@ -77,7 +79,7 @@ def add_second_loop(rr, prog):
     if not second['suffix'] and rr.random() < 0.4:
         # the same document imported twice
         for key in ('template', 'method', 'repl', 'const_binding', 'nodeps', 'carried_from', 'stop_reads_binding', 'free_name',
-                    'dup_ref'):
+                    'dup_ref', 'repl_via_stage_var'):
             second[key] = prog.get(key)
         second['file'] = 'dowhile.yaml'
         targets = {'chain': ['work', 'stop'], 'mid': ['work', 'mid', 'stop'], 'replicated': ['agg', 'stop'],
@@ -172,7 +174,9 @@ def render_dw(prog):
         if rs:
             lines.append('  references: [%s]' % ', '.join('"%s"' % r for r in rs))
         wa = []
-        if repl:
+        if repl and prog.get('repl_via_stage_var'):
+            wa.append('replicate: "%(workers)s"')
+        elif repl:
             wa.append('replicate: %d' % repl)
         if agg:
             wa.append('aggregate: true')
@@ -184,6 +188,11 @@ def render_dw(prog):
 def render_package(prog):
     """-> (main FlowIR text, {file name under conf/: DoWhile document}); fills o['ref'], o['stage'] of outside consumers"""
     loops = loops_of(prog)
+    claimed = {}
+    for lp in loops:  # one value of the stage-scoped variable per stage
+        if lp.get('repl_via_stage_var'):
+            if claimed.setdefault(lp['import_stage'], lp['repl']) != lp['repl']:
+                lp['repl_via_stage_var'] = False
     flag = bool(prog.get('want_repl_input')) and all(lp['template'] != 'replicated' and not lp.get('stop_reads_binding')
                                                      for lp in loops)
     for lp in loops:
@@ -195,7 +204,16 @@ def render_package(prog):
                  '    global: {resourceManager: {config: {walltime: 15.0}}}', '    stages:']
         main += ['      %d: {resourceManager: {config: {walltime: 20.0}}}' % st for st in stages]
         main += ['  px:', '    global: {resourceManager: {config: {walltime: 480.0}}}']
-    main += ['variables:', '  default:', '    global:', '      targetLoops: 5', '      uv: default-uv', 'components:',
+    main += ['variables:', '  default:', '    global:', '      targetLoops: 5', '      uv: default-uv', '      workers: 1']
+    staged = [lp for lp in loops if lp.get('repl_via_stage_var')]
+    if staged:
+        main += ['    stages:']
+        seen_st = set()
+        for lp in staged:
+            if lp['import_stage'] not in seen_st:
+                seen_st.add(lp['import_stage'])
+                main += ['      %d: {workers: %d}' % (lp['import_stage'], lp['repl'])]
+    main += ['components:',
              '- stage: 0', '  name: GenerateInput', '  command: {executable: echo, arguments: "0 %(uv)s"}']
     if flag:
         main += ['  workflowAttributes: {replicate: 2}']
